@@ -1,8 +1,9 @@
 \* export: every single call (method x chain x answer script) as one CASE record; entry-decoder ECASE records
 CONSTANTS
   Statuses = {200, 204, 301, 400, 404, 429, 500}
-  Retryable = {429}
+  RetryStatuses = {429}
   RetryBodies = {"valid"}
+  UndecodableBodies = {"wrongType"}
   AfterRetryStatuses = {200, 400}
   MaxAnswers = 2
   MaxCalls = 1
